@@ -7,13 +7,13 @@ from hypothesis import strategies as st
 from ..core import given_law
 from .. import gen
 
-RULE = ("even N in 2..48 (thorough to 96); complex fields: dense noise, sparse impulses, constant, dyadic, masked phase "
+RULE = ("N in 2..48 odd and even (thorough to 96); complex fields: dense noise, sparse impulses, constant, dyadic, masked phase "
         "screens; wavelength 0.3-10 um; d1 log-uniform 1e-5..1; |z| log-uniform 1e-3..1e6 both signs; magnification "
         "0.2..5 including exactly 1; focal length both signs; scalars passed as Python float, numpy.float64 or int. "
         "Oracle: sum|U_out|^2 d_out^2 == sum|U_in|^2 d_in^2 (1e-9), P(a u + b v) == a P(u) + b P(v) (1e-9), finite "
         "output, input unchanged. Non-trivial = non-constant field and (m != 1 or z < 0). Distinct = canonical JSON."
         " Also: coincidences d2 ~ one-step spacing, d2 ~ d1, z ~ N d1^2 / wvl with relative offsets 0 .. 1e-3.")
-ASSUMPTIONS = ["square even grids (the propagators' documented domain)", "d_out: angularSpectrum=outputSpacing, oneStep=|lambda z/(N d1)|, twoStep=d2, lens=|lambda f/(N d1)|"]
+ASSUMPTIONS = ["square grids, odd and even", "d_out: angularSpectrum=outputSpacing, oneStep=|lambda z/(N d1)|, twoStep=d2, lens=|lambda f/(N d1)|"]
 
 TOL = 1e-9
 
@@ -45,7 +45,7 @@ def scalar(draw, v):
 
 @st.composite
 def cases(draw, nmax=48):
-    N = 2 * draw(st.integers(1, nmax // 2))
+    N = draw(st.one_of(st.integers(1, nmax // 2).map(lambda k: 2 * k), st.integers(2, nmax)))      # odd grids too: "any complex input"
     u, kind = draw(field(N))
     v, _ = draw(field(N))
     prop = draw(st.sampled_from(["angular", "angular", "one", "two", "two", "lens"]))
